@@ -334,6 +334,18 @@ func runC11(p *Program, e *Engine, r *Result, tier string) {
 	}
 }
 
+// remOfSelfPlusOne: v is (idx + 1) or idx for the index field idx (the operand of a `% len` wrap).
+func remOfSelfPlusOne(v ssa.Value, idxF *types.Var) bool {
+	v = stripConv(v)
+	if b, ok := v.(*ssa.BinOp); ok && b.Op == token.ADD {
+		if k, ok := constUint(b.Y); ok && k == 1 {
+			v = stripConv(b.X)
+		}
+	}
+	ld, ok := v.(*ssa.UnOp)
+	return ok && ld.Op == token.MUL && fieldOf(ld.X) == idxF
+}
+
 func ringPathField(ringF *types.Var) string {
 	st := ringF.Type().Underlying().(*types.Array).Elem().Underlying().(*types.Struct)
 	for i := 0; i < st.NumFields(); i++ {
@@ -355,6 +367,7 @@ func ringCookieField(ringF *types.Var) string {
 
 func c11Index(a *An, fn *ssa.Function, w *Walker, idxF *types.Var, n int64) {
 	inc, reset, mod := false, false, false
+	other := false // any other assignment moves the write position (and can make a later move overwrite a pending one)
 	var desc []string
 	for _, v := range w.Visits {
 		st, ok := v.Instr.(*ssa.Store)
@@ -391,10 +404,16 @@ func c11Index(a *An, fn *ssa.Function, w *Walker, idxF *types.Var, n int64) {
 				}
 				desc = append(desc, "reset to 0 under "+stripIDs(v.Local.String()))
 			} else {
+				other = true
 				desc = append(desc, "assigned constant "+x.String())
 			}
 		case *ssa.BinOp:
-			if x.Op == token.ADD {
+			// the field's own value plus one
+			selfLoad := false
+			if ld, isLd := stripConv(x.X).(*ssa.UnOp); isLd && ld.Op == token.MUL && fieldOf(ld.X) == idxF {
+				selfLoad = true
+			}
+			if x.Op == token.ADD && selfLoad {
 				if k, ok := constUint(x.Y); ok && k == 1 {
 					inc = true
 					desc = append(desc, "incremented by 1")
@@ -402,17 +421,36 @@ func c11Index(a *An, fn *ssa.Function, w *Walker, idxF *types.Var, n int64) {
 				}
 			}
 			if x.Op == token.REM {
-				if k, ok := constUint(x.Y); ok && int64(k) == n {
+				if k, ok := constUint(x.Y); ok && int64(k) == n && remOfSelfPlusOne(x.X, idxF) {
 					mod = true
 					desc = append(desc, sprintf("reduced modulo %d", k))
 					continue
 				}
 			}
+			other = true
 			desc = append(desc, "assigned "+x.String())
 		default:
-			desc = append(desc, "assigned "+val.String())
+			other = true
+			desc = append(desc, "assigned "+stripIDs(v.Ctx.path(val)))
 		}
 	}
-	ok := (inc && reset) || mod
-	a.R.ob("C11.3", "ring-index:bounded", sprintf("the ring index stays below the ring length %d for histories of any length (wrap test agrees with the array type)", n), a.P.pos(fn.Pos()), ok, strings.Join(desc, "; "))
+	ok := ((inc && reset) || mod) && !other
+	// stores to the index field outside the translator's walk
+	checkedSt := map[ssa.Instruction]bool{}
+	for _, v := range w.Visits {
+		if st, isSt := v.Instr.(*ssa.Store); isSt && fieldOf(st.Addr) == idxF {
+			checkedSt[st] = true
+		}
+	}
+	for _, f2 := range a.P.srcFuncs(a.P.Main) {
+		for _, b := range f2.Blocks {
+			for _, in := range b.Instrs {
+				if st, isSt := in.(*ssa.Store); isSt && fieldOf(st.Addr) == idxF && !checkedSt[st] {
+					ok = false
+					desc = append(desc, "also written at "+a.P.instrPos(st)+" in "+shortFn(f2))
+				}
+			}
+		}
+	}
+	a.R.ob("C11.3", "ring-index:bounded", sprintf("the ring index only advances by one and wraps to 0 at the ring length %d (wrap test agrees with the array type); nothing else moves the write position", n), a.P.pos(fn.Pos()), ok, strings.Join(desc, "; "))
 }
